@@ -10,7 +10,6 @@
 package mcpx
 
 import (
-	"slices"
 	"bufio"
 	"bytes"
 	"context"
@@ -19,6 +18,7 @@ import (
 	"io"
 	"net/http"
 	"runtime"
+	"slices"
 	"sort"
 	"strings"
 	"sync"
@@ -38,10 +38,10 @@ type c02Msg struct {
 }
 
 type c02Payload struct {
-	Msgs   []c02Msg `json:"msgs"`
-	Batch  bool     `json:"batch,omitempty"`
-	GapMs  int      `json:"gap_ms"`          // virtual pause before sending
-	DupOf  string   `json:"dup_of,omitempty"` // deliberately reuses an id that is still in flight
+	Msgs  []c02Msg `json:"msgs"`
+	Batch bool     `json:"batch,omitempty"`
+	GapMs int      `json:"gap_ms"`           // virtual pause before sending
+	DupOf string   `json:"dup_of,omitempty"` // deliberately reuses an id that is still in flight
 }
 
 type c02Spec struct {
@@ -51,11 +51,11 @@ type c02Spec struct {
 }
 
 type c02Resp struct {
-	ID     string `json:"id"`
-	Code   int    `json:"code"`
-	OK     bool   `json:"ok"`
-	Via    int    `json:"via"`    // payload index whose HTTP exchange carried it (-1: shared stream)
-	Text   string `json:"text,omitempty"`
+	ID   string `json:"id"`
+	Code int    `json:"code"`
+	OK   bool   `json:"ok"`
+	Via  int    `json:"via"` // payload index whose HTTP exchange carried it (-1: shared stream)
+	Text string `json:"text,omitempty"`
 }
 
 var c02BigIDs = []string{"9007199254740993", "9007199254740992", "9007199254740991", "-9007199254740993", "9223372036854775807", "-9223372036854775808", "1152921504606846977"}
@@ -223,7 +223,7 @@ func TestVerifC02(t *testing.T) {
 			"ids: small, 0, negative, +-2^53+-1, int64 min/max, empty/unicode/escaped/numeric-looking strings, reuse after completion, (1/25) reuse while in flight; ends with a fresh-id ping. " +
 			"non-trivial: >=2 calls in flight together or a batch, and >=1 rejected message. distinct = distinct (transport, class sequence, batch shape) signatures",
 		MinNontrivial: 100,
-		Assumptions: []string{"envelopes are well-formed JSON-RPC 2.0", "an HTTP POST answered 4xx rejects all of its members (pre-validation)", "batch responses need not be grouped into one array"},
+		Assumptions:   []string{"envelopes are well-formed JSON-RPC 2.0", "an HTTP POST answered 4xx rejects all of its members (pre-validation)", "batch responses need not be grouped into one array"},
 	}
 	vh.Run(t, cfg, func(c *vh.Case) {
 		spec := genC02(c.R, c.Index)
